@@ -36,11 +36,41 @@ pub struct Shown {
 /// wasm/src/lib.rs::run_source, call for call, on the native target (HTML conversion left out;
 /// the library prints every `shout` itself, here we collect the rendered values like the
 /// playground does).
+/// A scratch-arena guard that behaves like the playground under a wasm trap: when the run is cut
+/// short by a panic (panic = abort there: nothing is unwound, no destructor runs, the instance stays
+/// alive and the next call starts with `init`), the guard is leaked instead of dropped.
+struct TrapLeak<T>(std::mem::ManuallyDrop<T>);
+impl<T> TrapLeak<T> {
+    fn new(t: T) -> Self {
+        TrapLeak(std::mem::ManuallyDrop::new(t))
+    }
+}
+impl<T> Drop for TrapLeak<T> {
+    fn drop(&mut self) {
+        if !std::thread::panicking() {
+            unsafe { std::mem::ManuallyDrop::drop(&mut self.0) }
+        }
+    }
+}
+impl<T> std::ops::Deref for TrapLeak<T> {
+    type Target = T;
+    fn deref(&self) -> &T {
+        &self.0
+    }
+}
+
 pub fn playground_run(src: &str, filename: &str) -> Shown {
+    match std::panic::catch_unwind(|| playground_body(src, filename)) {
+        Ok(s) => s,
+        Err(_) => Shown { ending: "trap", text: String::new() },
+    }
+}
+
+fn playground_body(src: &str, filename: &str) -> Shown {
     if let Err(err) = arena::init(16 * MEBI) {
         return Shown { ending: "init-failed", text: format!("Failed to initialize arena: {err}") };
     }
-    let arena = scratch_arena(None);
+    let arena = TrapLeak::new(scratch_arena(None));
 
     let lexer = Lexer::new(src, &arena);
     let mut parser = Parser::new(lexer, &arena);
@@ -51,7 +81,7 @@ pub fn playground_run(src: &str, filename: &str) -> Shown {
 
     let mut non_err = String::with_capacity(src.len() / 2);
     {
-        let res_arena = scratch_arena(Some(&arena));
+        let res_arena = TrapLeak::new(scratch_arena(Some(&arena)));
         let mut resolver = Resolver::with_facts_arena(&res_arena, &arena);
         resolver.resolve(root);
         if resolver.errors.has_errors() {
@@ -62,7 +92,7 @@ pub fn playground_run(src: &str, filename: &str) -> Shown {
         }
         let (facts, optimization_plan) = resolver.into_artifacts();
 
-        let frame = scratch_arena(Some(&arena));
+        let frame = TrapLeak::new(scratch_arena(Some(&arena)));
         let mut runtime = Runtime::new(&arena, Some(&frame));
         runtime.run_with_analysis(root, &facts, optimization_plan.as_ref());
         let err = &runtime.errors;
@@ -82,7 +112,48 @@ pub fn playground_run(src: &str, filename: &str) -> Shown {
 
 /// The same program alone through the library pipeline with fresh, separate arenas
 /// (tests/common.rs::with_pipeline wiring).
-pub fn isolated_run(src: &str, filename: &str) -> Shown {
+/// `traps`: the program carries a planted trap, so a panic is its expected ending. Any other program
+/// that panics here dies with the worker and the case is discarded (resource exhaustion in the small
+/// reference arenas, or an interpreter panic that belongs to another property).
+pub fn isolated_run(src: &str, filename: &str, traps: bool) -> Shown {
+    if !traps {
+        return isolated_body(src, filename);
+    }
+    install_panic_recorder();
+    match std::panic::catch_unwind(|| isolated_body(src, filename)) {
+        Ok(s) => s,
+        Err(e) => {
+            if !last_panic_is_planted_trap() {
+                // it ran out of memory (or hit something else) before reaching the planted trap
+                std::panic::resume_unwind(e);
+            }
+            Shown { ending: "trap", text: String::new() }
+        }
+    }
+}
+
+thread_local! {
+    static LAST_PANIC: std::cell::RefCell<String> = const { std::cell::RefCell::new(String::new()) };
+}
+fn install_panic_recorder() {
+    static ONCE: std::sync::Once = std::sync::Once::new();
+    ONCE.call_once(|| {
+        let default = std::panic::take_hook();
+        std::panic::set_hook(Box::new(move |info| {
+            LAST_PANIC.with(|l| *l.borrow_mut() = info.to_string());
+            default(info);
+        }));
+    });
+}
+/// The planted trap is a `run()` without a simulated host.
+fn last_panic_is_planted_trap() -> bool {
+    LAST_PANIC.with(|l| {
+        let m = l.borrow();
+        m.contains("no simulated world installed") || m.contains("outside of a Shuttle test")
+    })
+}
+
+fn isolated_body(src: &str, filename: &str) -> Shown {
     // a little smaller than the playground's 16 MiB arenas, which also hold the resolver's
     // scratch data: a program that fits here fits there (one that does not is discarded)
     let arena = Arena::new(12 * MEBI).expect("arena");
@@ -192,6 +263,22 @@ fn degenerate(r: &mut Rng) -> (String, &'static str) {
     }
 }
 
+/// A program beyond an analysis limit (more functions than the summary budget allows): analysis is
+/// skipped, no optimisation plan exists, and the run must still resolve names lexically.
+fn oversize(r: &mut Rng) -> String {
+    let mut src = String::from("make x get \"global\"\ndo show() start\n    return x\nend\n");
+    match r.below(3) {
+        0 => src += "do caller() start\n    make x get \"local\"\n    shout(x)\n    return show()\nend\nshout(caller())\n",
+        1 => src += "do caller(x) start\n    shout(x)\n    return show()\nend\nshout(caller(\"param\"))\n",
+        _ => src += "make i get 0\njasi (i small pass 1) start\n    i get i add 1\n    make x get \"inner\"\n    shout(show())\nend\nshout(x)\n",
+    }
+    let n = r.pick(&[4200u64, 4500]);
+    for i in 0..n {
+        src += &format!("do pad{i}() start\n    return {i}\nend\n");
+    }
+    src
+}
+
 fn gen_program(r: &mut Rng) -> Value {
     if r.chance(8) {
         let (text, what) = degenerate(r);
@@ -266,7 +353,7 @@ impl C14 {
         for (k, &pi) in order.iter().enumerate() {
             let src = source_of(&progs[pi]);
             stage(&format!("alone {k}"));
-            let alone = isolated_run(&src, "playground.ns");
+            let alone = isolated_run(&src, "playground.ns", progs[pi]["plant"] == "trap");
             stage(&format!("session {k}"));
             let got = playground_run(&src, "playground.ns");
             stage("between");
@@ -315,6 +402,8 @@ impl C14 {
         let label = match route {
             "eval" => "<eval>".to_string(),
             "stdin" => "<stdin>".to_string(),
+            // a script path that is not a regular file
+            "devstdin" => "/dev/stdin".to_string(),
             _ => path.clone(),
         };
         stage("predict");
@@ -346,6 +435,7 @@ impl C14 {
         let piped: Vec<(Vec<u8>, u64)> = pieces.iter().map(|p| (p.clone(), 0)).collect();
         let run = match route {
             "eval" => realos::run_naija_args(&bin, &["--eval", &src], realos::Feed::Null),
+            "devstdin" => realos::run_naija_args(&bin, &["/dev/stdin"], realos::Feed::Pipe(&piped)),
             "stdin" => {
                 res.count("cli_stdin_writes", pieces.len() as u64);
                 if case["packets"].as_bool().unwrap_or(false) {
@@ -408,8 +498,15 @@ impl Engine for C14 {
         let mut r = Rng::stream(seed, self.tag(), i);
         if i % 3 == 2 {
             // (b) CLI differential
-            let program = gen_program(&mut r);
-            let route = r.pick(&["file", "eval", "stdin"]);
+            let mut program = gen_program(&mut r);
+            let mut route = r.pick(&["file", "eval", "stdin", "file", "stdin", "devstdin"]);
+            if r.chance(3) {
+                // too long for an argument vector: file and stdin routes only
+                program = json!({"prog": prog::block_to_json(&[St::Raw(oversize(&mut r))]), "plant": "oversize"});
+                if route == "eval" {
+                    route = "file";
+                }
+            }
             let nchunks = r.usize(1, 6);
             let chunks: Vec<u64> = (0..nchunks).map(|_| r.pick(&[1u64, 7, 100, 4096, 8191, 8192, 8193, 65_536])).collect();
             let bin = if tier == Tier::Thorough && r.chance(50) { "release" } else { "dev" };
@@ -417,8 +514,23 @@ impl Engine for C14 {
         }
         // (a) session
         let nprogs = r.usize(1, 6);
-        let programs: Vec<Value> = (0..nprogs).map(|_| gen_program(&mut r)).collect();
-        let nruns = r.usize(2, 12);
+        let mut programs: Vec<Value> = (0..nprogs).map(|_| gen_program(&mut r)).collect();
+        // fault: runs that end in a trap at an arbitrary point (the playground instance survives a
+        // trapped run; its scratch guards are never dropped). One session in six is trap-heavy.
+        let trap_heavy = r.chance(16);
+        let mut nruns = r.usize(2, 12);
+        if trap_heavy {
+            nruns = r.usize(14, 26);
+        }
+        for p in programs.iter_mut() {
+            if r.chance(if trap_heavy { 60 } else { 8 }) && p["plant"] == "plain" {
+                let mut stmts = prog::block_from_json(&p["prog"]);
+                let first_body = stmts.iter().rposition(|s| matches!(s, St::Func { .. })).map_or(0, |k| k + 1);
+                let pos = r.usize(first_body, stmts.len());
+                stmts.insert(pos, St::Raw("make ztrap get command(\"trap\")\nztrap.run()".into()));
+                *p = json!({"prog": prog::block_to_json(&stmts), "plant": "trap"});
+            }
+        }
         let mut order: Vec<usize> = (0..nruns).map(|_| r.usize(0, nprogs - 1)).collect();
         // make sure something is repeated
         if nruns > 2 && r.chance(70) {
